@@ -74,7 +74,7 @@ type Menu struct {
 }
 
 type Shared struct {
-	S     [2]tensor.Tensor
+	S     [3]tensor.Tensor
 	Layer *layers.FC // a layer object shared by all goroutines
 	Soft  *activations.Softmax
 }
@@ -88,7 +88,10 @@ func NewShared() *Shared {
 		panic(err)
 	}
 	soft, _ := activations.NewSoftmax(&activations.SoftmaxConfig{Dim: 1})
-	return &Shared{S: [2]tensor.Tensor{s1, s2}, Layer: fc, Soft: soft}
+	// the third shared tensor is the RESULT of an operation on untracked operands, and nothing has looked at it yet
+	// (not even its gradient context) when the goroutines start
+	s3, _ := s2.Sub(s2.Scale(0.5))
+	return &Shared{S: [3]tensor.Tensor{s1, s2, s3}, Layer: fc, Soft: soft}
 }
 
 func resolve(sh *Shared, local []tensor.Tensor, slot [2]any) tensor.Tensor {
@@ -247,7 +250,7 @@ func RunConcurrent(progs [][]Instr, rounds int) string {
 	}
 	for r := 0; r < rounds; r++ {
 		sh := NewShared()
-		before := [2]Digest{DigestOf(sh.S[0]), DigestOf(sh.S[1])}
+		before := [2]Digest{DigestOf(sh.S[0]), DigestOf(sh.S[1])} // the third one must not be touched before the goroutines run
 		got := make([][]Digest, len(progs))
 		errs := make([]error, len(progs))
 		var wg sync.WaitGroup
